@@ -490,6 +490,17 @@ func pypiDef() sysDef {
 		d.decor = append(d.decor, "marker:"+m.Text)
 	}
 	d.decor = append(d.decor, "extras:x")
+	// a distribution does not require itself (other packages may require the root: cycles through the root)
+	d.valid = func(u *Universe) bool {
+		for _, v := range u.Vers {
+			for _, r := range v.Reqs {
+				if r.Pkg == v.Pkg {
+					return false
+				}
+			}
+		}
+		return true
+	}
 	d.apply = func(r *Req, dc string) {
 		if strings.HasPrefix(dc, "marker:") {
 			r.Env = dc[7:]
